@@ -145,6 +145,7 @@ func matchKnown(fs []Finding, prop, class string) *Finding {
 type batchOutcome struct {
 	res      *core.BatchResult
 	died     bool
+	hang     bool
 	diedMsg  string
 	diedHCL  bool
 	timedOut bool
@@ -223,8 +224,17 @@ func drive(id, tier string) int {
 			continue
 		}
 		if o.died {
-			if o.diedHCL {
-				v := core.Violation{Class: id + "/process-death/" + o.diedMsg, Msg: "worker process died: " + o.diedMsg, Batch: b, Index: -1, Input: o.cur, Detail: map[string]any{"stderr": o.stderr}}
+			curIdx, curIn := parseCur(o.cur)
+			_ = curIn
+			if o.hang {
+				hc := "other"
+				if spec.HangClass != nil {
+					hc = spec.HangClass(curIn)
+				}
+				v := core.Violation{Class: id + "/hang/cpu-bound/" + hc, Msg: fmt.Sprintf("one case consumed more than %.0f CPU-seconds: %s", core.CPUHangLimit, oneLine(trunc(o.stderr, 300))), Batch: b, Index: curIdx, Input: curIn}
+				viols = append(viols, v)
+			} else if o.diedHCL {
+				v := core.Violation{Class: id + "/process-death/" + o.diedMsg, Msg: "worker process died: " + o.diedMsg, Batch: b, Index: curIdx, Input: curIn, Detail: map[string]any{"stderr": o.stderr}}
 				viols = append(viols, v)
 			} else {
 				harnessErrs = append(harnessErrs, fmt.Sprintf("batch %d: worker died (%s)\n%s", b, o.diedMsg, o.stderr))
@@ -353,6 +363,18 @@ func drive(id, tier string) int {
 	return 0
 }
 
+func parseCur(cur string) (int, string) {
+	var rec struct {
+		Index int    `json:"index"`
+		Input string `json:"input"`
+	}
+	rec.Index = -1
+	if err := json.Unmarshal([]byte(cur), &rec); err != nil {
+		return -1, cur
+	}
+	return rec.Index, rec.Input
+}
+
 func mergeExtra(dst map[string]any, k string, v any) {
 	switch nv := v.(type) {
 	case float64:
@@ -427,6 +449,16 @@ func runBatch(bin, id, tier string, seed int64, b, n int, runDir, repDir string,
 	if err != nil || rerr != nil || !res.Done {
 		o.died = true
 		se := stderr.String()
+		if ee, ok := err.(*exec.ExitError); ok {
+			switch ee.ExitCode() {
+			case core.ExitCPUHang:
+				o.hang = true
+			case core.ExitWallOnly:
+				o.timedOut = true
+				os.Remove(cur)
+				return o
+			}
+		}
 		o.stderr = trunc(se, 6000)
 		o.diedMsg = deathKind(se, err)
 		o.diedHCL = strings.Contains(se, "github.com/hashicorp/hcl/v2") && (strings.Contains(se, "fatal error:") || strings.Contains(se, "panic:") || strings.Contains(se, "DATA RACE"))
